@@ -57,6 +57,13 @@ def parse_config_file(args_dict):
         # warning when one does not want to provide a config file.
         configfile = config
 
+    # Ensure there are no unknown sections.
+    known = ['files', 'simulation', 'solver_opts', 'gridding_opts',
+             'noise_opts', 'data', 'layered']
+    unknown = [sec for sec in cfg.sections() if sec not in known]
+    if unknown:
+        raise TypeError(f"Unexpected section in config file: {unknown}.")
+
     # # Check the terminal arguments # #
 
     # Initiate terminal dict.
